@@ -1,6 +1,7 @@
 package rules
 
 import (
+	"go/token"
 	"go/types"
 	"strings"
 
@@ -240,17 +241,39 @@ func errorIsNegativeAnswer(fn *ssa.Function, s ssa.CallInstruction) bool {
 		return false
 	}
 	errSet := map[ssa.CallInstruction]int{s: ei}
-	fromOther := func(v ssa.Value) bool {
-		if v == nil {
+	// the tested value is the probe's other result, or computed from it alone (info.IsDir(),
+	// info.Mode().IsRegular(), len(entries) > 0, v.field)
+	var fromOtherD func(v ssa.Value, d int) bool
+	fromOtherD = func(v ssa.Value, d int) bool {
+		if v == nil || d > 4 {
 			return false
 		}
 		for _, o := range engine.Origins(v) {
 			if call, idx := engine.CallOf(o); call == s && idx != ei {
 				return true
 			}
+			switch x := o.(type) {
+			case *ssa.Call:
+				if x.Call.IsInvoke() {
+					if len(x.Call.Args) == 0 && fromOtherD(x.Call.Value, d+1) {
+						return true
+					}
+				} else if len(x.Call.Args) == 1 && fromOtherD(x.Call.Args[0], d+1) {
+					return true
+				}
+			case *ssa.UnOp:
+				if x.Op == token.NOT && fromOtherD(x.X, d+1) {
+					return true
+				}
+			case *ssa.Field:
+				if fromOtherD(x.X, d+1) {
+					return true
+				}
+			}
 		}
 		return false
 	}
+	fromOther := func(v ssa.Value) bool { return fromOtherD(v, 0) }
 	fromCall := func(v ssa.Value) bool {
 		if v == nil {
 			return false
